@@ -440,6 +440,12 @@ def run_check(pid, tier, seed, replay=None):
             if res.holds_fail:
                 break
 
+    # 3b. property-specific support checks (e.g. an external oracle)
+    extra_info = {}
+    extra_fails = []
+    if hasattr(prop, 'extra'):
+        extra_info, extra_fails = prop.extra(tier, rng)
+
     # 4. classify failures
     log('[%s] streams done: evaluations=%d holds_fail=%d disagree=%d t=%.1fs' % (
         pid, res.evaluations, len(res.holds_fail), len(res.disagree), time.time() - t_start))
@@ -491,6 +497,9 @@ def run_check(pid, tier, seed, replay=None):
     finally:
         driver.close()
 
+    for f in extra_fails[:5]:
+        violations.append({'kind': 'external-oracle-disagrees', 'op': f['op'], 'stream': 'extra',
+                           'input': to_json(f['input']), 'what': f['what']})
     status = 0
     replay_path = None
     if violations:
@@ -553,6 +562,7 @@ def run_check(pid, tier, seed, replay=None):
         'translator_notes': {k: v for k, v in info['translate']['notes'].items() if k != 'patterns'},
         'build_s': {'driver': info.get('t_build_driver'), 'theorems': info.get('t_build_theorems')},
         'forbidden_constructs': info['forbidden'],
+        'support': extra_info,
     }
     evidence = {
         'property_id': pid,
